@@ -371,7 +371,10 @@ const QUOTER: u32 = 9_999;
 const QUOTE_VOL: u32 = 100_000_000;
 
 /// One momentum run under harness-imposed quotes. Returns per-step (M, p_market, flow).
-fn momentum_run(scn: &W4Scn, mirrored: bool, stats: &mut RunStats) -> Result<Vec<(f64, f64, Flow)>, Violation> {
+/// (status, remaining volume, side) of every order of the agents (not the harness's quotes), in id order, as observed before an update
+type BookSig = Vec<(u8, u32, bool)>;
+
+fn momentum_run(scn: &W4Scn, mirrored: bool, stats: &mut RunStats) -> Result<Vec<(f64, f64, Flow, BookSig)>, Violation> {
     let cfg = &scn.cfg;
     let spec = &scn.agents[0];
     let (a, n, decay, demand, scale, order_ratio) = match spec {
@@ -394,8 +397,17 @@ fn momentum_run(scn: &W4Scn, mirrored: bool, stats: &mut RunStats) -> Result<Vec
     let (off0, half0) = cfg.path.first().copied().unwrap_or((0, false));
     {
         let (b, k) = quote(off0, half0);
-        let ib = w.place(a, true, QUOTE_VOL, QUOTER, Some(b)).map_err(|e| viol(scn, "oracle-abort", 0, "quote", "Ok".into(), e))?;
-        let ik = w.place(a, false, QUOTE_VOL, QUOTER, Some(k)).map_err(|e| viol(scn, "oracle-abort", 0, "quote", "Ok".into(), e))?;
+        // the mirrored run submits its quote instructions in mirrored order (ask first), so that the k-th instruction of
+        // every batch is the mirror image of the k-th instruction of the original run under the same shuffle
+        let (ib, ik) = if !mirrored {
+            let ib = w.place(a, true, QUOTE_VOL, QUOTER, Some(b)).map_err(|e| viol(scn, "oracle-abort", 0, "quote", "Ok".into(), e))?;
+            let ik = w.place(a, false, QUOTE_VOL, QUOTER, Some(k)).map_err(|e| viol(scn, "oracle-abort", 0, "quote", "Ok".into(), e))?;
+            (ib, ik)
+        } else {
+            let ik = w.place(a, false, QUOTE_VOL, QUOTER, Some(k)).map_err(|e| viol(scn, "oracle-abort", 0, "quote", "Ok".into(), e))?;
+            let ib = w.place(a, true, QUOTE_VOL, QUOTER, Some(b)).map_err(|e| viol(scn, "oracle-abort", 0, "quote", "Ok".into(), e))?;
+            (ib, ik)
+        };
         cur = cur.or(Some((ib.1, ik.1)));
         let wr = &mut w;
         let r = &mut rng;
@@ -418,6 +430,7 @@ fn momentum_run(scn: &W4Scn, mirrored: bool, stats: &mut RunStats) -> Result<Vec
         last_price = Some(mid);
         let q0 = w.queue().len();
         let n0: Vec<usize> = (0..w.assets()).map(|x| w.n_orders(x)).collect();
+        let sig: BookSig = w.orders(a).iter().filter(|o| o.trader != QUOTER).map(|o| (o.status, o.vol, o.bid)).collect();
         {
             let wr = &mut w;
             let r = &mut rng;
@@ -434,18 +447,30 @@ fn momentum_run(scn: &W4Scn, mirrored: bool, stats: &mut RunStats) -> Result<Vec
                 (false, false) => f.limit_sells += 1,
             }
         }
-        out.push((m, p, f));
+        out.push((m, p, f, sig));
         // move the quotes for the next step
         if step + 1 < cfg.path.len() {
             let (off, half) = cfg.path[step + 1];
             if (off, half) != cfg.path[step] {
                 if let Some((ib, ik)) = cur {
-                    w.cancel(a, ib);
-                    w.cancel(a, ik);
+                    if !mirrored {
+                        w.cancel(a, ib);
+                        w.cancel(a, ik);
+                    } else {
+                        w.cancel(a, ik);
+                        w.cancel(a, ib);
+                    }
                 }
                 let (b, k) = quote(off, half);
-                let ib = w.place(a, true, QUOTE_VOL, QUOTER, Some(b)).map_err(|e| viol(scn, "oracle-abort", step, "quote", "Ok".into(), e))?;
-                let ik = w.place(a, false, QUOTE_VOL, QUOTER, Some(k)).map_err(|e| viol(scn, "oracle-abort", step, "quote", "Ok".into(), e))?;
+                let (ib, ik) = if !mirrored {
+                    let ib = w.place(a, true, QUOTE_VOL, QUOTER, Some(b)).map_err(|e| viol(scn, "oracle-abort", step, "quote", "Ok".into(), e))?;
+                    let ik = w.place(a, false, QUOTE_VOL, QUOTER, Some(k)).map_err(|e| viol(scn, "oracle-abort", step, "quote", "Ok".into(), e))?;
+                    (ib, ik)
+                } else {
+                    let ik = w.place(a, false, QUOTE_VOL, QUOTER, Some(k)).map_err(|e| viol(scn, "oracle-abort", step, "quote", "Ok".into(), e))?;
+                    let ib = w.place(a, true, QUOTE_VOL, QUOTER, Some(b)).map_err(|e| viol(scn, "oracle-abort", step, "quote", "Ok".into(), e))?;
+                    (ib, ik)
+                };
                 cur = Some((ib.1, ik.1));
             }
         }
@@ -469,7 +494,7 @@ pub fn execute_c17(scn: &W4Scn) -> RunOutcome {
         };
         let run_a = momentum_run(scn, false, &mut stats)?;
         let eps = 1e-9;
-        for (step, (m, p, f)) in run_a.iter().enumerate() {
+        for (step, (m, p, f, _)) in run_a.iter().enumerate() {
             let bad = |field: &str, exp: String, act: String| {
                 viol(scn, "momentum-asymmetry", step, field, exp, act).detail(format!("momentum M={:e}, demand*tanh(scale*M)/n={:e}, order flow {:?}", m, p, f))
             };
@@ -509,18 +534,33 @@ pub fn execute_c17(scn: &W4Scn) -> RunOutcome {
                 return Err(bad("order ratio 0", "no limit orders".into(), format!("{:?}", f)));
             }
         }
-        // mirrored run: same seed and parameters, price path mirrored about the centre level.
-        // Only with order_ratio == 0 (market orders only): then the generator draws are aligned by construction.
-        if order_ratio == 0.0 {
+        // mirrored run: same seed and parameters, price path mirrored about the centre level. Buys of one run must be the
+        // sells of the other, step by step, limit and market orders counted separately. The generator draws of the two
+        // runs are aligned as long as (i) the momentum signals mirror exactly and (ii) every order has the same status and
+        // remaining volume (on the opposite side) in both runs when the agents look: then the same orders are live (same
+        // cancellation draws) and the same probabilities are compared with the same draws. Both conditions are observed
+        // before each update; once one fails (e.g. a limit price clamped at an end of the price range in one run only) the
+        // comparison stops - that is the harness's mirror construction failing, not the agents.
+        {
             let run_b = momentum_run(scn, true, &mut stats)?;
             stats.probe("mirrored_run");
             for (step, (x, y)) in run_a.iter().zip(run_b.iter()).enumerate() {
                 if x.0 != -y.0 {
-                    // the harness's own mirror construction failed (quotes not mirrored): not a property of bourse
                     stats.probe("mirror_construction_skipped");
                     break;
                 }
-                if x.2.market_buys != y.2.market_sells || x.2.market_sells != y.2.market_buys {
+                if x.3.len() != y.3.len() || x.3.iter().zip(y.3.iter()).any(|(p, q)| p.0 != q.0 || p.1 != q.1 || p.2 == q.2) {
+                    stats.probe("mirror_book_diverged_skipped");
+                    if std::env::var("VERIF_DEBUG").is_ok() {
+                        let k = x.3.iter().zip(y.3.iter()).position(|(p, q)| p.0 != q.0 || p.1 != q.1 || p.2 == q.2);
+                        eprintln!("step {} lens {} {} first diff {:?}: {:?} vs {:?}", step, x.3.len(), y.3.len(), k, k.map(|k| x.3[k]), k.map(|k| y.3[k]));
+                    }
+                    break;
+                }
+                if order_ratio > 0.0 {
+                    stats.probe("mirrored_step_with_limit_orders");
+                }
+                if x.2.market_buys != y.2.market_sells || x.2.market_sells != y.2.market_buys || x.2.limit_buys != y.2.limit_sells || x.2.limit_sells != y.2.limit_buys {
                     return Err(viol(scn, "momentum-asymmetry", step, "mirrored order flow", format!("buys/sells swapped: {:?}", x.2), format!("{:?}", y.2))
                         .detail(format!("M={:e} in the original run, {:e} in the mirrored run, demand={}", x.0, y.0, demand)));
                 }
